@@ -48,6 +48,28 @@ def model_check(tier, prop):
         return {"mc_states": dist, "mc_transitions": gen, "mc_depth": depth, "mc_maxops": maxops, "mc_wall": round(wall, 1)}
 
 
+def monitor_laws(tier):
+    """C07, design level: MonitorGen.tla constructs the notification every transition of MC_Txn owes each of three
+    monitor requests in both encodings; TLC checks that Monitor.tla's acceptor accepts it, rejects it with a row or a
+    changed column dropped or an unchanged column added, and that applying it mirrors the database; a variant claiming
+    the opposite must be refuted (non-vacuity)."""
+    depth = 2 if tier == "quick" else 3
+    cfg = "SPECIFICATION Spec\nCONSTANTS MaxDepth = %d\n MaxOps = 2\n Emit = FALSE\nVIEW View\nPROPERTY %s\nCHECK_DEADLOCK FALSE\n"
+    with Scratch("mcmon") as sc:
+        copy_spec(sc.dir)
+        run_vh_schema(sc, "small")
+        open(sc.path("MG.cfg"), "w").write(cfg % (depth, "NotifyProp"))
+        rc, out, wall = run_tlc(sc.dir, "MC_MonitorGen.tla", cfg="MG.cfg", workers=NCPU, timeout=3000)
+        if "Model checking completed. No error has been found." not in out:
+            raise Broken("MC_MonitorGen: the acceptor of C07 and the constructed notifications disagree, or TLC failed:\n" + out[-3000:])
+        gen, dist = tlc_stats(out)
+        open(sc.path("MGv.cfg"), "w").write(cfg % (2, "Vacuous"))
+        rc, o2, w2 = run_tlc(sc.dir, "MC_MonitorGen.tla", cfg="MGv.cfg", workers=4, timeout=900)
+        if "Action property Vacuous is violated" not in o2:
+            raise Broken("MC_MonitorGen: the vacuity variant is not refuted")
+        return {"monitor_laws_states": dist, "monitor_laws_transitions": gen, "monitor_laws_depth": depth}
+
+
 _vh = None
 
 
@@ -143,6 +165,8 @@ def run_check(prop, tier):
     _vh = build_vh()
     cov = {}
     cov.update(model_check(tier, prop))
+    if prop == "C07":
+        cov.update(monitor_laws(tier))
 
     results = []
     pool, cases, schema, total = enumerate_cases(tier, sd)
@@ -175,6 +199,16 @@ def run_check(prop, tier):
                 other += 1
 
     verdict = findings.adjudicate(prop, cases_to_confirm, lambda c: txnfam.confirm(_vh, c))
+    # vacuity guard: a scripted scenario that never fired checks nothing
+    scen = {}
+    for r in results:
+        for k, v in (r.get("scenarios") or {}).items():
+            scen[k] = scen.get(k, 0) + v
+    cov["scenarios_fired"] = scen
+    need = {"C06": ["swap", "delete-insert", "same-value", "takeover"], "C04": ["weak-prune-two-passes"]}.get(prop, [])
+    dead = [k for k in need if scen.get(k, 0) == 0]
+    if dead:
+        raise Broken("scripted scenarios never produced in this run (dead driver): %s" % ", ".join(dead))
 
     sample = next((r["sample"] for r in results if r.get("sample")), None)
     samples = []
